@@ -247,6 +247,8 @@ struct ParseEnv {
     int64_t handlerThrowAt = -1; int handlerFlavour = 0;
     int64_t progressiveSteps = -1; bool progressiveReset = true;   // parseFirst + n parseNext then abandon
     bool resolverThrows = false; std::string resolverNullFor;
+    std::string docSysId = "/sim/doc.xml", docUrl = "http://sim.test/doc.xml";   // where the document entity lives in the simulated world
+    bool externalResolver = false;           // true: the caller installed its own resolver on the parser; parse() leaves it alone
     const Schedule& schedFor(const std::string& n) const { static Schedule one; auto it = sched.find(n); return it == sched.end() ? one : it->second; }
     StreamFaults faultsFor(const std::string& n) const { auto it = sfaults.find(n); return it == sfaults.end() ? StreamFaults() : it->second; }
     const Resource* find(const std::string& name) const { if (res) for (auto& r : *res) if (r.name == name) return &r; return nullptr; }
@@ -373,14 +375,14 @@ public:
     // One parse of env.res[0] (the document entity) in the given environment.
     ParseResult parse(const ParseEnv& env, bool keepDomDump = true) {
         ParseResult pr; fRec.reset(); fRec.throwAt = env.handlerThrowAt; fRec.flavour = env.handlerFlavour;
-        fOpened.clear(); fResolver.opened = &fOpened; installResolver(env);
+        fOpened.clear(); fResolver.opened = &fOpened; if (!env.externalResolver) installResolver(env);
         const Resource& doc = (*env.res)[0];
         std::unique_ptr<InputSource> src; std::string sysPath;
-        std::u16string docSys = X("/sim/doc.xml");
+        std::u16string docSys = X(env.docSysId);
         if (env.sourceKind == "membuf") src.reset(new (fMM) MemBufInputSource((const XMLByte*)doc.bytes.data(), doc.bytes.size(), xc(docSys), false, fMM));
         else if (env.sourceKind == "file") src.reset(new (fMM) LocalFileInputSource(xc(docSys), fMM));
         else if (env.sourceKind == "stdin") src.reset(new (fMM) StdInInputSource(fMM));
-        else if (env.sourceKind == "url") { std::u16string u = X("http://sim.test/doc.xml"); src.reset(new (fMM) URLInputSource(XMLURL(xc(u), fMM), fMM)); }
+        else if (env.sourceKind == "url") { std::u16string u = X(env.docUrl); src.reset(new (fMM) URLInputSource(XMLURL(xc(u), fMM), fMM)); }
         else src.reset(new (fMM) SimInputSource(0, doc.bytes, env.schedFor(doc.name), env.faultsFor(doc.name), xc(docSys), fMM));
         g_run.ev("parse_begin", (uint64_t)fApi, (uint64_t)fCfg.scanner);
         DOMDocument* lsDoc = nullptr;
